@@ -42,7 +42,11 @@ RULE = (
     "{1,2,3} x auto_reload {on,off}) plus a sequence of steps over {load-and-render sync / "
     "async (name, namespace via kwargs or render context, globals), modify source, delete "
     "source, make the next consultation of the source fail} on <= 3 names and <= 2 "
-    "namespaces.  Enumerated families (one representative per renaming of names / "
+    "namespaces; for the file-system families with auto_reload on every modify step of the "
+    "enumerated families also chooses a newer / older / equal mtime, and the 'mtime' family "
+    "(loads, modify with each of 6 mtime kinds or by rename, delete / create, <= 2 names, "
+    "length <= 4 quick / 5 thorough, plus load-change-[evict]-load-change-[evict]-load "
+    "skeletons over all change pairs) is enumerated completely at capacity 1 and 2.  Enumerated families (one representative per renaming of names / "
     "namespaces, histories end in a load, directly repeated modify/delete/fail dropped): "
     "quick = every history of length <= 3 with sync/async chosen per step + every history "
     "of length 4 whose loads are all sync or all async (file-system families: all sync; "
@@ -68,9 +72,12 @@ ASSUMPTIONS = [
     "liquid2's parser and renderer are the trusted base here: the expected text is the "
     "twin loader's source with the two placeholders substituted by the reference "
     "(cross-checked against a full render through the uncached twin on every random-history step)",
-    "file freshness = mtime set explicitly with os.utime to strictly increasing whole "
-    "seconds; a source change that keeps the mtime is outside what 'freshness "
-    "information' can express and is not generated",
+    "file freshness = mtime, always set explicitly with os.utime (never the wall clock): a "
+    "modify step gives the new version an mtime that is newer, older, equal, far-future, zero "
+    "or negative, in place or by rename (new inode); ANY mtime different from the one "
+    "recorded at load means stale; content changed under an unchanged mtime is the documented "
+    "blind spot of mtime freshness — snapshot and new content are both accepted there "
+    "(counted as ev:hit-equal-mtime / ev:reload-equal-mtime)",
     "a resident entry with auto_reload off (or a source kind without freshness "
     "information) must answer from its snapshot exactly — this is how least-recently-used "
     "eviction is observed without reading the cache's internals",
@@ -236,7 +243,7 @@ class Store:
     def reset(self) -> None:
         raise NotImplementedError
 
-    def modify(self, name: str) -> None:
+    def modify(self, name: str, mkind: int = 0, rename: int = 0) -> None:
         raise NotImplementedError
 
     def delete(self, name: str) -> None:
@@ -274,7 +281,7 @@ class DictStore(Store):
         for n in NAMES:
             self.t[n] = ref.body("src", n, 0, self.with_site)
 
-    def modify(self, name: str) -> None:
+    def modify(self, name: str, mkind: int = 0, rename: int = 0) -> None:  # noqa: ARG002
         self.t[name] = ref.body("src", name, self._bump(name), self.with_site)
 
     def delete(self, name: str) -> None:
@@ -310,7 +317,7 @@ class CtxStore(Store):
         for n in NAMES:
             self._write(n, 0)
 
-    def modify(self, name: str) -> None:
+    def modify(self, name: str, mkind: int = 0, rename: int = 0) -> None:  # noqa: ARG002
         self._write(name, self._bump(name))
 
     def delete(self, name: str) -> None:
@@ -349,7 +356,7 @@ class ChoiceDictStore(Store):
             self.d1[n] = ref.body("L1", n, 0, self.with_site)
             self.d2[n] = ref.body("L2", n, 0, self.with_site)
 
-    def modify(self, name: str) -> None:
+    def modify(self, name: str, mkind: int = 0, rename: int = 0) -> None:  # noqa: ARG002
         self.d1[name] = ref.body("L1", name, self._bump(name), self.with_site)
 
     def delete(self, name: str) -> None:
@@ -369,19 +376,54 @@ class ChoiceDictStore(Store):
 
 
 class _Files:
-    """Files with explicit, strictly increasing mtimes (never the wall clock)."""
+    """Files whose mtime is always set explicitly (never the wall clock).
+
+    mtime kinds (ref.MTIME_KINDS): newer = above every stamp handed out so far, older =
+    below every stamp handed out so far, equal = the file's current mtime (new content,
+    same mtime; 'newer' when the file does not exist), future = beyond 2096, zero = the
+    epoch, negative = before the epoch.  The stamp recorded is what stat() reports after
+    the write."""
 
     clock = 1_000_000_000
+    down = 1_000_000_000
+    future = 4_000_000_000
+    neg = 0
 
     def __init__(self) -> None:
-        self.stamps: dict[str, int] = {}
+        self.stamps: dict[str, float] = {}
 
-    def write(self, path: str, text: str) -> None:
-        with open(path, "w", encoding="utf-8") as f:
-            f.write(text)
-        _Files.clock += 1
-        os.utime(path, (_Files.clock, _Files.clock))
-        self.stamps[path] = _Files.clock
+    def _pick(self, path: str, mkind: int) -> float:
+        c = _Files
+        if mkind == 2 and path in self.stamps:
+            return self.stamps[path]
+        if mkind == 1:
+            c.down -= 1
+            return c.down
+        if mkind == 3:
+            c.future += 1
+            return c.future
+        if mkind == 4:
+            return 0
+        if mkind == 5:
+            c.neg -= 1
+            return c.neg
+        c.clock += 1
+        return c.clock
+
+    def write(self, path: str, text: str, mkind: int = 0, rename: int = 0) -> None:
+        t = self._pick(path, mkind)
+        if rename:
+            tmp = os.path.join(os.path.dirname(os.path.dirname(path)),
+                               ".incoming-" + os.path.basename(path))
+            with open(tmp, "w", encoding="utf-8") as f:
+                f.write(text)
+            os.utime(tmp, (t, t))
+            os.replace(tmp, path)  # new inode
+        else:
+            with open(path, "w", encoding="utf-8") as f:
+                f.write(text)
+            os.utime(path, (t, t))
+        self.stamps[path] = os.stat(path).st_mtime
 
     def unlink(self, path: str) -> None:
         if path in self.stamps:
@@ -411,9 +453,10 @@ class FsStore(Store):
             self.files.write(self._p(n), ref.body("src", n, 0, self.with_site))
         self.dirty = set()
 
-    def modify(self, name: str) -> None:
+    def modify(self, name: str, mkind: int = 0, rename: int = 0) -> None:  # noqa: ARG002
         self.dirty.add(name)
-        self.files.write(self._p(name), ref.body("src", name, self._bump(name), self.with_site))
+        self.files.write(self._p(name), ref.body("src", name, self._bump(name), self.with_site),
+                         mkind, rename)
 
     def delete(self, name: str) -> None:
         self.dirty.add(name)
@@ -456,9 +499,10 @@ class ChoiceFsStore(Store):
             self.files.write(os.path.join(self.d2, n), ref.body("L2", n, 0, self.with_site))
         self.dirty = set()
 
-    def modify(self, name: str) -> None:
+    def modify(self, name: str, mkind: int = 0, rename: int = 0) -> None:  # noqa: ARG002
         self.dirty.add(name)
-        self.files.write(os.path.join(self.d1, name), ref.body("L1", name, self._bump(name), self.with_site))
+        self.files.write(os.path.join(self.d1, name),
+                         ref.body("L1", name, self._bump(name), self.with_site), mkind, rename)
 
     def delete(self, name: str) -> None:
         self.dirty.add(name)
@@ -655,7 +699,7 @@ class Harness:
             if kind != "load":
                 saw_other = True
                 if kind == "modify":
-                    st.modify(NAMES[op.name])
+                    st.modify(NAMES[op.name], op.g, op.via)
                 elif kind == "delete":
                     st.delete(NAMES[op.name])
                 else:
@@ -681,7 +725,8 @@ class Harness:
                 now = ("err", type(e).__name__)
             key = ref.model_key(name, ns, nskey)
             armed = st.armed
-            was_resident = model.get(key) is not None
+            ent_before = model.get(key)
+            was_resident = ent_before is not None
             alts = ref.expect_load(
                 model, key, now, step=i, auto_reload=auto, has_fresh=st.has_fresh,
                 is_fresh=st.is_fresh, armed=armed,
@@ -730,12 +775,19 @@ class Harness:
                 })
             ev = matched.event
             matched.commit()
-            if ev in ("hit", "hit-verified"):
+            if ev in ("hit", "hit-verified", "hit-equal-mtime"):
                 saw_hit = True
-            elif ev in ("miss", "reload"):
+            elif ev in ("miss", "reload", "reload-equal-mtime"):
                 saw_miss = True
             if record:
                 ctx.count("ev:" + ev)
+                if ev == "reload" and ent_before is not None and ent_before.stamp is not None:
+                    cur = st.stamp(ent_before.origin)
+                    ctx.count(
+                        "reload_origin_gone" if cur is None
+                        else "reload_older_mtime" if cur < ent_before.stamp  # type: ignore[operator]
+                        else "reload_newer_mtime"
+                    )
             if diag and matched.outcome[0] == "ok":
                 # after a successful load its key must be resident; if it is not, but a
                 # key differing only by the namespace prefix is, the key was derived wrongly
@@ -994,30 +1046,53 @@ def _short_now(now: tuple[Any, ...]) -> str:
 # ---------------------------------------------------------------------------
 
 
-def exh_plan(tier: str, family: str, cap: int) -> list[tuple[int, dict[str, Any]]]:
-    """[(length, canonical_histories kwargs)] making up the enumerated family."""
+FS_MODIFY_KINDS = (0, 1, 2)  # newer / older / equal mtime, in the main enumerated family
+
+
+def exh_plan(tier: str, family: str, cap: int, auto: bool = False) -> list[tuple[int, dict[str, Any]]]:
+    """[(length, canonical_histories kwargs)] making up the enumerated family.
+
+    File-system families with auto_reload on (the only configurations in which an mtime
+    is ever compared) take every modify step with a newer, an older and an equal mtime."""
     fs = family in FS_FAMILIES
-    plan: list[tuple[int, dict[str, Any]]] = [(1, {}), (2, {}), (3, {})]
+    mk: dict[str, Any] = {"modify_kinds": FS_MODIFY_KINDS} if (fs and auto) else {}
+    plan: list[tuple[int, dict[str, Any]]] = [(1, {}), (2, dict(mk)), (3, dict(mk))]
     if tier == "quick":
         # with capacity 3 a 4-step history can evict only at its last step, which no
         # later step can observe; quick leaves those to the thorough tier
         if cap < 3:
-            plan.append((4, {"per_op_mode": False, "uniform_modes": (0,) if fs else (0, 1)}))
+            plan.append((4, {"per_op_mode": False, "uniform_modes": (0,) if fs else (0, 1), **mk}))
     else:
-        plan.append((4, {}))
+        plan.append((4, dict(mk)))
         if not fs:
             plan.append((5, {"per_op_mode": False, "uniform_modes": (0,)}))
     return plan
 
 
-def exh_expected(tier: str, family: str, cap: int) -> int:
-    return sum(ref.count_canonical(ln, **kw) for ln, kw in exh_plan(tier, family, cap))
+def exh_expected(tier: str, family: str, cap: int, auto: bool = False) -> int:
+    return sum(ref.count_canonical(ln, **kw) for ln, kw in exh_plan(tier, family, cap, auto))
 
 
-def exh_parts(tier: str, family: str, cap: int) -> int:  # noqa: ARG001
+def mtime_len(tier: str) -> int:
+    return 4 if tier == "quick" else 5
+
+
+def mtime_configs() -> list[dict[str, Any]]:
+    return [{"family": f, "cap": c, "auto": True} for f in FS_FAMILIES for c in (1, 2)]
+
+
+def mtime_expected(tier: str) -> int:
+    per = sum(1 for ln in range(1, mtime_len(tier) + 1) for _ in ref.mtime_histories(ln))
+    per += sum(1 for _ in ref.mtime_skeletons())
+    return per * len(mtime_configs())
+
+
+def exh_parts(tier: str, family: str, cap: int, auto: bool = False) -> int:
     if tier == "quick":
-        return 2 if cap < 3 else 1
-    return 24
+        if cap == 3:
+            return 1
+        return 3 if (family in FS_FAMILIES and auto) else 2
+    return 36 if (family in FS_FAMILIES and auto) else 24
 
 
 def lrudeep_len(tier: str) -> int:
@@ -1035,9 +1110,13 @@ def shards(tier: str, seed: int) -> list[dict[str, Any]]:  # noqa: ARG001
     specs: list[dict[str, Any]] = []
     # slowest first so the pool stays busy
     for cfg in sorted(configs(), key=lambda c: c["family"] not in FS_FAMILIES):
-        n = exh_parts(tier, cfg["family"], cfg["cap"])
+        n = exh_parts(tier, cfg["family"], cfg["cap"], cfg["auto"])
         for i in range(n):
             specs.append({"kind": "exh", "cfg": cfg, "i": i, "n": n})
+    nm = 2 if tier == "quick" else 12
+    for cfg in mtime_configs():
+        for i in range(nm):
+            specs.append({"kind": "mtime", "cfg": cfg, "i": i, "n": nm})
     nr = 12 if tier == "quick" else 48
     for i in range(nr):
         specs.append({"kind": "random", "i": i, "n": nr})
@@ -1062,12 +1141,16 @@ def floors(tier: str) -> dict[str, int]:
             "loads_compared": 1_500_000,
             "distinct_nontrivial": 100_000,
             "set:configs": 30,
-            "exh_histories_done": 900_000,
+            "exh_histories_done": 1_000_000,
+            "mtime_histories_done": 58_584,
+            "reload_older_mtime": 5_000,
+            "reload_newer_mtime": 5_000,
+            "ev:hit-equal-mtime": 1_000,
             "lrudeep_histories_done": 40_000,
             "ev:hit": 150_000,
             "ev:miss": 1_000_000,
-            "ev:reload": 1_000,
-            "ev:hit-verified": 20_000,
+            "ev:reload": 10_000,
+            "ev:hit-verified": 30_000,
             "ev:miss-failed": 40_000,
             "model_evictions": 400_000,
             "random_histories": 4_000,
@@ -1084,10 +1167,14 @@ def floors(tier: str) -> dict[str, int]:
         "nontrivial_histories": 2_000_000,
         "set:configs": 30,
         "exh_histories_done": 15_000_000,
+        "mtime_histories_done": 700_000,
+        "reload_older_mtime": 50_000,
+        "reload_newer_mtime": 50_000,
+        "ev:hit-equal-mtime": 10_000,
         "lrudeep_histories_done": 200_000,
         "ev:hit": 3_000_000,
         "ev:miss": 20_000_000,
-        "ev:reload": 8_000,
+        "ev:reload": 100_000,
         "ev:hit-verified": 250_000,
         "ev:miss-failed": 1_000_000,
         "model_evictions": 8_000_000,
@@ -1101,8 +1188,10 @@ def floors(tier: str) -> dict[str, int]:
 
 
 def exhaustive(tier: str, merged: dict[str, Any]) -> bool:
-    want = sum(exh_expected(tier, c["family"], c["cap"]) for c in configs())
+    want = sum(exh_expected(tier, c["family"], c["cap"], c["auto"]) for c in configs())
     got = merged["counters"].get("exh_histories_done", 0)
+    if merged["counters"].get("mtime_histories_done", 0) != mtime_expected(tier):
+        return False
     return got == want and not merged.get("truncated") and not merged.get("failed")
 
 
@@ -1129,6 +1218,8 @@ def run_shard(spec: dict[str, Any], ctx: Ctx) -> None:
             _exh(h, spec, ctx)
         elif kind == "lrudeep":
             _lrudeep(h, spec, ctx)
+        elif kind == "mtime":
+            _mtime(h, spec, ctx)
         elif kind == "random":
             _random(h, spec, ctx)
         else:
@@ -1160,13 +1251,13 @@ def _exh(h: Harness, spec: dict[str, Any], ctx: Ctx) -> None:
         ctx.note(
             f"enumerated family [{cfg['family']}, {tier}]: "
             + "; ".join(f"length {ln}: {kw or 'sync/async per step'}"
-                        for ln, kw in exh_plan(tier, cfg["family"], 2))
+                        for ln, kw in exh_plan(tier, cfg["family"], 2, True))
             + (" (capacity 3: lengths <= 3 only)" if tier == "quick" else "")
         )
     idx = 0
     i, n = spec["i"], spec["n"]
     sample = None
-    for ln, kw in exh_plan(tier, cfg["family"], cfg["cap"]):
+    for ln, kw in exh_plan(tier, cfg["family"], cfg["cap"], cfg["auto"]):
         for ops in ref.canonical_histories(ln, **kw):
             idx += 1
             if idx % n != i:
@@ -1194,6 +1285,35 @@ def _lrudeep(h: Harness, spec: dict[str, Any], ctx: Ctx) -> None:
             ctx.count("lrudeep_histories_done")
 
 
+def _mtime(h: Harness, spec: dict[str, Any], ctx: Ctx) -> None:
+    """File freshness family: every mtime kind / rename / delete+create (see c14_lru)."""
+    cfg = spec["cfg"]
+    ctx.seen("configs", cfg_id(cfg))
+    i, n = spec["i"], spec["n"]
+    idx = 0
+    last = None
+    for ln in range(1, mtime_len(spec["tier"]) + 1):
+        for ops in ref.mtime_histories(ln):
+            idx += 1
+            if idx % n != i:
+                continue
+            if idx & 255 == 0:
+                ctx.check_deadline()
+            _run_and_report(h, cfg, ops, ctx, "mtime", only_last=True)
+            ctx.count("mtime_histories_done")
+    for ops in ref.mtime_skeletons():
+        idx += 1
+        if idx % n != i:
+            continue
+        if idx & 255 == 0:
+            ctx.check_deadline()
+        _run_and_report(h, cfg, ops, ctx, "mtime", only_last=False)
+        ctx.count("mtime_histories_done")
+        last = ops
+    if last is not None and i == 0:
+        ctx.sample({"kind": "mtime", "cfg": cfg_id(cfg), "history": [ref.show_op(o) for o in last]})
+
+
 def random_history(rng: random.Random, length: int) -> list[Op]:
     ops: list[Op] = []
     n_names = rng.choice((2, 3, 3))
@@ -1205,7 +1325,9 @@ def random_history(rng: random.Random, length: int) -> list[Op]:
             if not ops[-1].ns:
                 ops[-1] = ops[-1]._replace(via=0)
         elif r < 0.82:
-            ops.append(Op("modify", rng.randrange(n_names)))
+            # mtime kind / rename only mean something to the file-backed families
+            ops.append(Op("modify", rng.randrange(n_names), 0,
+                          rng.choice((0, 0, 0, 1, 1, 2, 3, 4, 5)), 0, rng.randrange(2)))
         elif r < 0.91:
             ops.append(Op("delete", rng.randrange(n_names)))
         else:
